@@ -70,6 +70,16 @@ pub const ENGINE_VERSION: u32 = 1;
 /// properties whose inputs are adversarial: panics are identified by source file + panic kind (see DESIGN.md 7)
 pub const COARSE_SIGNATURES: [&str; 7] = ["C06", "C14", "C15", "C16", "C17", "C23", "C39"];
 
+/// the recorded "stale actor index after isolate/integrate" panic (C37) is an index-out-of-bounds in op_set.rs like any other
+/// indexing slip in that file; it is told apart by the one thing it needs: isolation was used in the run
+fn panic_signature_with_tags(p: &crate::monitor::PanicInfo, world: &World) -> String {
+    let mut s = p.signature();
+    if p.file.ends_with("op_set2/op_set.rs") && p.message.starts_with("index out of bounds") && world.tags.contains("isolation-used") {
+        s.push_str(":after-isolation");
+    }
+    s
+}
+
 fn install_hooks(cfg: &Cfg) {
     automerge::verif_hooks::install(automerge::verif_hooks::Controller {
         actor_stream: Some(0xAC70_0000_0000_0000 ^ cfg.p1 as u64),
@@ -155,7 +165,7 @@ pub fn execute_with(prop: &PropDef, cfg: &Cfg, evs: &[Ev], mut oracle: Box<dyn O
                     oracle: "no_panic".into(),
                     // byzantine-input properties identify a finding by the source file that panics: the tail of
                     // distinct unwrap/index sites inside one decoder is long and input-dependent
-                    signature: if COARSE_SIGNATURES.contains(&prop.id) { p.coarse_signature() } else { p.signature() },
+                    signature: if COARSE_SIGNATURES.contains(&prop.id) { p.coarse_signature() } else { panic_signature_with_tags(&p, &world) },
                     step: p.step,
                     detail: format!("{} panicked at {}:{}: {}", p.context, p.file, p.line, p.message),
                 })
@@ -177,7 +187,7 @@ pub fn execute_with(prop: &PropDef, cfg: &Cfg, evs: &[Ev], mut oracle: Box<dyn O
                 Verdict::Violation(Violation {
                     property: prop.id.into(),
                     oracle: "no_panic_in_run".into(),
-                    signature: p.signature(),
+                    signature: panic_signature_with_tags(&p, &world),
                     step: p.step,
                     detail: format!("{} panicked at {}:{}: {}", p.context, p.file, p.line, p.message),
                 })
